@@ -714,7 +714,8 @@ func genC20Cycle(t *rapid.T) C20Cycle {
 			s.Add = fixEmpty(genPairs(t, bad))
 			s.DelIdx = rapid.SliceOfN(rapid.IntRange(0, 20), 0, 3).Draw(t, "del")
 		case "remote":
-			for _, p := range fixEmpty(genPairs(t, false)) {
+			// remote pairs may carry values longer than the room left in the key (same shadow key, other value)
+			for _, p := range fixEmpty(genPairs(t, rapid.Bool().Draw(t, "remote_long"))) {
 				s.Remote = append(s.Remote, C20Remote{P: p, Del: rapid.IntRange(0, 3).Draw(t, "rdel") == 0, Age: rapid.IntRange(0, 20).Draw(t, "age")})
 			}
 		}
